@@ -184,9 +184,35 @@ pub fn record_main(args: &[String]) -> i32 {
         let _ = writeln!(s, "{sv_points}\n[HitObjects]\n{objs}");
         s
     }).collect();
+    // directed neighbours: for maps whose sliders were replaced, further copies with one extra circle placed right at / next to a
+    // burst hit (the truncated slider end, the last hit and the times around them decide fast paths and the final order)
+    let mut texts = texts;
+    let base_n = texts.len();
+    let mut extra = Vec::new();
+    for (i, t) in texts.iter().enumerate().take(base_n) {
+        let Ok(map) = Beatmap::from_bytes(t.as_bytes()) else { continue };
+        let Ok((_, bursts)) = convert_traced(&map) else { continue };
+        let hits: Vec<f64> = bursts.iter().flat_map(|b| [b.1.first().copied(), b.1.last().copied()]).flatten().filter(|h| h.is_finite()).collect();
+        if hits.is_empty() {
+            continue;
+        }
+        let id = map.hit_objects.len() + 1;
+        for v in 0..3usize {
+            let h = hits[(i + v) % hits.len()];
+            let at = match (i + v) % 5 {
+                0 => h.floor(),
+                1 => h.ceil(),
+                2 => h - 0.05,
+                3 => h + 0.05,
+                _ => h,
+            };
+            extra.push(format!("{}{id},192,{at},1,{}\n", t.trim_end_matches('\n').to_string() + "\n", (i * 7 + v) % 256));
+        }
+    }
+    texts.extend(extra);
     let lines = par_map(texts.len(), n_threads(), |i| {
         let Ok(map) = Beatmap::from_bytes(texts[i].as_bytes()) else { return None };
-        let label = format!("random taiko source {i} (seed {seed})");
+        let label = format!("{} taiko source {i} (seed {seed})", if i < base_n { "random" } else { "random + neighbour of a burst hit" });
         let res = convert_traced(&map);
         let (conv, bursts) = match res {
             Ok(x) => x,
